@@ -51,6 +51,8 @@ pub struct Net {
     /// errors to hand to the next accept() calls
     pub accept_errors: VecDeque<i32>,
     pub accept_errors_fired: u64,
+    /// descriptor exhaustion in progress: every accept() fails with EMFILE
+    pub accept_outage: bool,
 }
 
 pub type NetRef = Arc<Mutex<Net>>;
@@ -170,6 +172,11 @@ pub fn poll_accept_raw(net: &NetRef, cx: &mut Context<'_>) -> Poll<io::Result<Si
     let mut n = net.lock().unwrap();
     n.accept_polls += 1;
     if n.manual_accept {
+        if n.accept_outage {
+            n.accept_errors_fired += 1;
+            n.ev("accept -> EMFILE (outage)".to_string());
+            return Poll::Ready(Err(io::Error::from_raw_os_error(24)));
+        }
         if let Some(e) = n.accept_errors.pop_front() {
             n.accept_errors_fired += 1;
             n.ev(format!("accept -> errno {}", e));
